@@ -410,3 +410,29 @@ def check(ctx):
     ctx.floor("R08-e", "calls passing fast_acquire", n_kw, 6)
     ctx.floor("R08-e", "writers of _fast_acquire", n_wr, 4)
     # a primitive built internally without the keyword gets the default (False): nothing to check there beyond the defaults above
+
+    # ---- R08-f the protocol entry points are the operation: `await future` waits like `future.wait()` before anything else can end it
+    # (result, failure or FutureCancelled), and every `__anext__` that a class of the package adds on top of a stream goes through the
+    # stream's `receive()` (or the inherited `__anext__`) on every path - a shortcut through `receive_nowait()` is not a checkpoint
+    FUT = "_core/_futures.py"
+    fa_ = ctx.fn("Future.__await__", FUT)
+    dominates_all_exits(ctx, "R08-f", fa_, "yield from self.wait().__await__()", "awaiting a Future passes through wait() on every path, also to an error",
+                        exits=("return", "raise"))
+    KNOWN_ANEXT = {("_core/_fileio.py", "_PathIterator"), ("_backends/_asyncio.py", "_SignalReceiver"), ("abc/_streams.py", "UnreliableObjectReceiveStream"),
+                   ("abc/_streams.py", "ByteReceiveStream")}          # (the stream ABCs are R12-i/R13-d/R17-d/R18-d; files and signals are not in the C08 table)
+    n_an = 0
+    for f_ in ctx.repo.all_funcs:
+        if f_.module.endswith("_trio.py") or f_.module.endswith("itertools.py") or f_.node.name != "__anext__" or f_.parent is not None:
+            continue
+        n_an += 1
+        if (f_.module, f_.cls) in KNOWN_ANEXT or any(f_.module.endswith(m_) and f_.cls == c_ for m_, c_ in KNOWN_ANEXT):
+            continue
+
+        def is_entry(frag, node):
+            for x in (ast.walk(frag) if frag is not None else ()):
+                if isinstance(x, ast.Await) and isinstance(x.value, ast.Call) and norm(x.value.func) in ("self.receive", "super().__anext__"):
+                    return True
+            return False
+
+        dominates_all_exits(ctx, "R08-f", f_, is_entry, f"{f_.cls}.__anext__ hands out an item only through receive() (a checkpoint), never around it")
+    ctx.floor("R08-f", "`__anext__` definitions outside itertools", n_an, 4)
